@@ -1,7 +1,7 @@
 use serde_json::Value;
 
 use crate::ConvertResult;
-use crate::lua_emitter::EmmyLuaEmitter;
+use crate::lua_emitter::{EmmyLuaEmitter, quote_string};
 use crate::markdown_doc::sanitize_description;
 use crate::schema_walker::SchemaWalker;
 
@@ -348,7 +348,7 @@ impl SchemaConverter {
                 .filter(|item| item.get("type").and_then(|v| v.as_str()) != Some("null"))
                 .map(|item| {
                     if let Some(const_val) = item.get("const").and_then(|v| v.as_str()) {
-                        format!("\"{}\"", const_val)
+                        quote_string(const_val)
                     } else {
                         self.resolve_type(walker, item)
                     }
@@ -409,14 +409,14 @@ impl SchemaConverter {
             let variants: Vec<String> = enum_values
                 .iter()
                 .filter_map(|v| v.as_str())
-                .map(|s| format!("\"{}\"", s))
+                .map(quote_string)
                 .collect();
             return variants.join(" | ");
         }
 
         // const
         if let Some(const_val) = schema.get("const").and_then(|v| v.as_str()) {
-            return format!("\"{}\"", const_val);
+            return quote_string(const_val);
         }
 
         "any".to_string()
